@@ -10,7 +10,7 @@ R-COUNTER      capacity getters are the terms the bump guards use (end - top) re
 """
 import re
 
-from engine import build, fwd, sym, fixtures, flow, witness
+from engine import build, fwd, sym, fixtures, flow, witness, linear
 from engine.facts import cls_template, strip_ns, top_term, subterms, tstr
 from rules import common
 
@@ -183,6 +183,43 @@ def check_offsets(run, db):
         run.violation('R-TERM.offset', inst, bs['push'].loc, '; '.join(probs), site=site)
     else:
         run.ok('R-TERM.offset', inst, bs['push'].loc, 'push: size - offset; top: node + offset, usable_size; pop: usable_size + offset')
+    # next_block_size(): upstream size minus the header offset when the next block comes from upstream, the cached block's usable size
+    # (the offset was taken off when it was pushed) when it comes from the cache
+    for f in db.find(cls_t='memory_arena', short='next_block_size'):
+        n += 1
+        inst = '%s [%s]' % (f.display, db.config)
+        cases = []
+        for sm in fwd.summarize(f, db=db, roles={}, no_forward=True):
+            if sm.end != 'return' or sm.ret_term is None:
+                continue
+            t = sym.strip_casts(sm.ret_term)
+            if isinstance(t, dict) and t.get('k') == 'cond':
+                cases += [(sym.canon(t['c']), True, t['t']), (sym.canon(t['c']), False, t['f'])]
+            else:
+                for c, tk in sm.conds:
+                    cases.append((c, tk, sm.ret_term))
+        nprobs = []
+        seen_up = seen_cache = False
+        for c, tk, v in cases:
+            if 'cache_empty()' not in c:
+                continue
+            lv = linear.lin(v)
+            offs = sum(cf for a, cf in lv.items() if 'implementation_offset()' in a)
+            rest = {a: cf for a, cf in lv.items() if 'implementation_offset()' not in a}
+            if tk:
+                seen_up = True
+                if offs != -1 or len(rest) != 1 or list(rest.values()) != [1] or 'next_block_size()' not in list(rest)[0]:
+                    nprobs.append('with an empty cache it reports [%s], not the block source\'s next size minus one header offset' % linear.fmt(lv))
+            else:
+                seen_cache = True
+                if offs != 0 or len(rest) != 1 or list(rest.values()) != [1] or 'cached_block_size()' not in list(rest)[0]:
+                    nprobs.append('with a cached block it reports [%s], not that block\'s usable size (the header offset was already taken off when it was cached)' % linear.fmt(lv))
+        if not (seen_up and seen_cache) and not nprobs:
+            run.broke('memory_arena::next_block_size: the cache / upstream cases were not recognised')
+        elif nprobs:
+            run.violation('R-TERM.offset', inst, f.loc, '; '.join(sorted(set(nprobs))), site={'function': 'memory_arena::next_block_size', 'role': 'usable size of the next block'})
+        else:
+            run.ok('R-TERM.offset', inst, f.loc, 'upstream next size - offset | cached usable size')
     # min_block_size of pool / stack / arena add exactly that offset
     for ct in ('memory_pool', 'memory_stack', 'memory_arena'):
         for f in db.find(cls_t=ct, short='min_block_size'):
